@@ -45,7 +45,7 @@ def run(ctx):
             broken.append("coqchk rejects Props/C06.vo: " + cout[-800:])
     if not proofs["ok"]:
         broken.append("proof obligations of Props/C06.v do not check: %s" % (proofs.get("broken_files") or proofs.get("nonstd_axioms") or proofs["log"][-1200:]))
-    h = vf.go_harness(ctx, "index", "TestVerifC06$", ["index/zz_verif_c06_test.go"], ctx.n(1500, 20000),
+    h = vf.go_harness(ctx, "index", "TestVerifC06$", ["index/zz_verif_c06_test.go"], ctx.n(1000, 12000),
                       timeout=600 if ctx.tier == "quick" else 3000)
     if h["rc"] != 0:
         broken.append("harness TestVerifC06 failed (rc=%d): %s" % (h["rc"], h["log"][-1500:]))
